@@ -99,7 +99,8 @@ def simple_property(ctx, module, drv_name, mode, oracle_kind, corr_kind, rule, n
     cov = dict(frag)
     cov.update({
         "trusted_base": TRUSTED_COMMON,
-        "evaluations": sum(c.n for c in cs),
+        "evaluations": max(sum(c.n for c in cs), st.get("evaluations", 0)),
+        "protocol_lines": sum(c.n for c in cs),
         "distinct_nontrivial": st.get(nontrivial_key, 0),
         "rule": rule,
         "traces_validated_against_impl": sum(c.n for c in cs),
